@@ -167,7 +167,8 @@ def _drain_iteration(h, first):
     sock = W.make_socket(queue=[e, rest], connected=True if first else None)
     log = []
     _install_write_contract(W, sock, log)
-    stub_async(W, F_RESET, "reset_connection", [None])
+    W.queue_at_reset = []
+    stub_async(W, F_RESET, "reset_connection", [None], needs=lambda a, k: W.queue_at_reset.append(list(W.queue_items())))
     now0 = aio.now(h.it)
     # after the first suspension the rest of the loop is not followed: an iteration is one pop
     state = {"iterations": 0}
@@ -247,6 +248,11 @@ def _drain_obligations(h, W, sock, e, rest, log, r, now0, first):
         else:
             ok = len(q) >= 1 and isinstance(q[0], Instance) and q[0] is not rest
             h.oblige("a failed entry with retries left is put back at the head of the queue", ok)
+            qr = W.queue_at_reset[0] if W.queue_at_reset else []
+            h.oblige("...before the reset can suspend: whatever is accepted while the link is being reset is counted against a buffer "
+                     "that already holds the failed entry (the capacity rule), and queues up behind it (the order)",
+                     len(qr) >= 1 and isinstance(qr[0], Instance) and qr[0] is not rest and qr[0] is not e
+                     and h.attr(qr[0], "message") is msg)
             if ok:
                 n = q[0]
                 h.oblige("re-queued entry: same header, message and expiry, one retry less",
@@ -534,7 +540,7 @@ def read_one_contract(h):
     h.oblige("reads are consecutive: the cursor ends after the bytes consumed", True)
 
 
-@oset("socket._read", ["C07", "C06", "C17", "C12", "C13"], [F_READ])
+@oset("socket._read", ["C07", "C06", "C17", "C12", "C13", "C10"], [F_READ])
 def read_contract(h):
     """One arbitrary iteration of the read loop and every exit."""
     if not h.symbolic:
